@@ -15,24 +15,25 @@ How it is evaluated
   * a step is (parser kind, operation); the operations of each kind are listed in `make_ops` (parse_args / parse_object /
     parse_string / parse_env / get_defaults / dump / validate / instantiate_classes / format_help, --help, --<arg>.help,
     --print_config with and without flags, and failing variants of each).
-  * every history runs in its own forked child process of a parent that never calls jsonargparse, on parsers built inside the
-    child; the oracle outcome of a step is the outcome of that step alone, in its own child, on a fresh parser.  So process-wide
-    left-overs of one history cannot be blamed on another, and the oracle is never polluted.
-  * on a mismatch the history is reduced (steps dropped one at a time, each replay again in a fresh child) to a minimal history
-    that still changes the outcome of the call; the violation key names that minimal history:
+  * histories run in forked child processes of a parent that never calls jsonargparse, each history on parsers built for it; a
+    child runs one history after the other (the earlier ones are then "calls made earlier on other parsers in the same process")
+    and is replaced by a new child after the first history in which an outcome differed.  The oracle outcome of a step is the
+    outcome of that step alone, in its own child, on a fresh parser, so the oracle is never polluted.
+  * on a mismatch the process history is reduced (chunks of steps dropped, each candidate replayed in a fresh child) to a minimal
+    history that still changes the outcome of the call; the violation key names that minimal history (X' = another parser built
+    by the same function as the called one):
          c09:<minimal history, steps joined by '>'>=><call>:<fresh outcome kind>-><outcome kind after the history>
 
-quick:    all histories of length 1 within a kind (and B2 -> B), the "suspicious" steps of every kind -> every call of every other
-          kind, all histories of length 2 made of suspicious steps within a kind -> every call of the kind, plus deterministic
-          long histories (length 12) within and across kinds
-thorough: all histories of length <= 2 within a kind, all length-1 cross-kind histories, length 3 of suspicious steps, and seeded
-          random histories of length 12 (h.rng)
+quick:    histories of length 1 within a kind (every step -> 14 representative calls, 11 suspicious steps -> every call), B2 -> B,
+          suspicious steps of every kind -> representative calls of every other kind, histories of length 2 of suspicious steps
+          within a kind, plus fixed long histories (length 12) within and across kinds
+thorough: all histories of length 1 (within a kind, across kinds, across instances) -> every call, length 2 and 3 of suspicious
+          steps -> every call, and fixed + seeded random (h.rng) histories of length 12
 """
 import contextlib
 import dataclasses
 import enum
 import io
-import itertools
 import multiprocessing
 import os
 import pickle
@@ -326,7 +327,7 @@ def make_ops():
     args(D, "bad_item!", ["--pts=[{\"x\": 1}, {\"x\": \"q\"}]"])
     args(D, "unknown!", ["--inner.nope=1"])
     args(D, "help", ["--help"])
-    args(D, "inner_model_help", ["--inner.model.help", f"{M}.Other"])
+    args(D, "inner_model_help!", ["--inner.model.help", f"{M}.Other"])
     args(D, "pc", ["--inner.x=8", "--print_config"])
     args(D, "pc_then_unknown!", ["--print_config", "--inner.nope=1"])
     args(D, "pc_then_bad_value!", ["--print_config=skip_null", "--inner.x=q"])
@@ -360,14 +361,14 @@ SUSPICIOUS = {  # the first 5 of each list are used for the quick tier's longer 
     "A": ["pc_then_unknown!", "pc_sub_then_bad_value!", "model_help", "fit", "bad_value!", "unknown!", "pc_fit", "pc_bad_flag!", "cfg_bad!", "instantiate", "dump_bad!"],
     "B": ["pc_then_bad_value!", "opt_help", "ok", "unknown!", "instantiate", "pc_then_unknown!", "bad_value!", "model_help", "pc", "cfg_bad!", "link_target_given"],
     "C": ["pc_then_unknown!", "ok", "bad_value!", "environ_bad!", "pc_bad_flag!", "unknown!", "help", "pc", "pc_then_bad_value!", "cfg_bad!", "path_missing!"],
-    "D": ["pc_then_bad_value!", "inner_model_help", "ok", "bad_item!", "inner_cfg_bad!", "unknown!", "pc", "pc_then_unknown!", "cfg_bad!", "instantiate", "zoo"],
+    "D": ["pc_then_bad_value!", "inner_model_help!", "ok", "bad_item!", "inner_cfg_bad!", "unknown!", "pc", "pc_then_unknown!", "cfg_bad!", "instantiate", "zoo"],
 }
 # the calls used as the final call of the longer exhaustive histories in the quick tier: one per method and outcome kind
 PROBES = {
     "A": ["fit", "test", "bad_value!", "model_help", "pc_fit", "cfg", "obj", "obj_bad!", "str", "env", "defaults", "dump", "validate", "validate_bad!"],
     "B": ["ok", "extra", "bad_value!", "extra_help", "pc", "cfg", "obj", "obj_bad!", "str", "env", "defaults", "dump", "dump_skip_default", "validate"],
     "C": ["ok", "append", "bad_value!", "help", "pc", "cfg", "environ", "obj", "obj_bad!", "str", "env", "defaults", "dump", "validate"],
-    "D": ["ok", "zoo", "bad_value!", "inner_model_help", "pc", "inner_cfg", "obj", "obj_bad!", "str", "env", "defaults", "dump", "validate", "validate_bad!"],
+    "D": ["ok", "zoo", "bad_value!", "inner_model_help!", "pc", "inner_cfg", "obj", "obj_bad!", "str", "env", "defaults", "dump", "validate", "validate_bad!"],
 }
 SUSPICIOUS["B2"] = SUSPICIOUS["B"]
 # calls whose outcome the statement does not speak about ("parse, dump, defaults or validation call"): they are history steps, and a
@@ -644,23 +645,20 @@ def is_subsequence(small, big):
     return all(any(x == y for y in it) for x in small)
 
 
-KNOWN: Dict[tuple, list] = {}  # per worker process: probe (kind, op) -> [(relative minimal history, wrong outcome, key, case)]
 METHOD = {}
 
 
-def classify(history, step, o):
-    """-> (key, what, case) for one mismatch"""
+def minimise_work(item):
+    """Pool worker: reduce one diverging (process history, call, wrong outcome) to a minimal history (replays in child processes)."""
+    history, step, o = item
+    return minimise(list(history), step, o)
+
+
+def describe(minimal, step, o):
+    """-> (relative minimal history, key, what, case) for one classified mismatch"""
     kind, op = kind_of_label(step[0]), step[1]
-    rel_all = [(w.rstrip("'"), o_) for w, o_ in relative(history, step)]
-    for rel_min, wrong, key, what, case in KNOWN.get((kind, op), []):
-        if wrong == o and is_subsequence([(w.rstrip("'"), o_) for w, o_ in rel_min], rel_all):
-            return key, what, case
-    minimal = minimise(history, step, o)
     fresh = fresh_of(step)
     call = f"{kind}.{op}"
-    if minimal is None:
-        return (f"c09:unreproducible:=>{call}", "the outcome differed from the fresh parser's once, but not when the same process history was replayed in a new process",
-                {"call": f"{call} = {DESC[(kind, op)]}", "process_history": [f"{l}.{o_}" for l, o_ in history][-40:], "fresh": fresh, "after_history": o})
     rel = relative(minimal, step)
     names = ">".join(f"{w}.{o_}" for w, o_ in rel)
     fk, ok = kind_of_outcome(fresh), kind_of_outcome(o)
@@ -670,34 +668,87 @@ def classify(history, step, o):
     what = (f"after the history [{', '.join(f'{w}.{o_}' for w, o_ in rel)}] the call {call} = {DESC[(kind, op)]} gives {summary(o)}; "
             f"on a freshly built identical parser it gives {summary(fresh)}")
     case = {"minimal_history": [f"{w}.{o_} = {DESC[(w.rstrip(chr(39)), o_)]}" for w, o_ in rel], "call": f"{call} = {DESC[(kind, op)]}",
-            "parsers": "build_A / build_B / build_C in bounded/b09_history.py; X' = another parser built by the same function", "fresh": fresh, "after_history": o}
-    KNOWN.setdefault((kind, op), []).append((rel, o, key, what, case))
-    return key, what, case
+            "parsers": "build_A / build_B / build_C / build_D in bounded/b09_history.py; X' = another parser built by the same function", "fresh": fresh,
+            "after_history": o}
+    return rel, key, what, case
+
+
+def classify_all(mismatches, pool):
+    """Deterministic classification of all mismatches [(process history, call, wrong outcome)] -> [(key, what, case)].
+    Shortest histories first; a mismatch whose history contains an already established minimal history for the same call with the
+    same wrong outcome is attributed to it without replay; the others are reduced by replaying in fresh processes."""
+    known = {}  # (kind, op) -> [(relative minimal history without instance marks, wrong outcome, (key, what, case))]
+    out = []
+    todo = sorted(range(len(mismatches)), key=lambda i: (len(mismatches[i][0]), i))
+
+    def collapse(rel, kind):
+        """own parser -> K, any other parser of the same kind -> K', parsers of another kind -> their kind"""
+        return [((w.rstrip("'") + "'") if w.rstrip("'") == kind and w != kind else w.rstrip("'"), o_) for w, o_ in rel]
+
+    def explained(i):
+        history, step, o = mismatches[i]
+        kind, op = kind_of_label(step[0]), step[1]
+        rel_all = collapse(relative(history, step), kind)
+        for rel_min, wrong, res in known.get((kind, op), []):
+            if wrong == o and is_subsequence(rel_min, rel_all):
+                return res
+        return None
+
+    while todo:
+        rest = []
+        for i in todo:
+            res = explained(i)
+            if res is not None:
+                out.append((i, res))
+            else:
+                rest.append(i)
+        if not rest:
+            break
+        shortest = len(mismatches[rest[0]][0])
+        now, seen = [], set()
+        for i in rest:
+            history, step, o = mismatches[i]
+            sig = (tuple(relative(history, step)), kind_of_label(step[0]), step[1], repr(o))
+            if len(history) == shortest and sig not in seen:
+                seen.add(sig)
+                now.append(i)
+        minimal = pool.map(minimise_work, [mismatches[i] for i in now], chunksize=1)
+        for i, m in zip(now, minimal):
+            history, step, o = mismatches[i]
+            kind, op = kind_of_label(step[0]), step[1]
+            if m is None:
+                res = (f"c09:unreproducible:=>{kind}.{op}", "the outcome differed from the fresh parser's once, but not when the same process history was replayed in a new process",
+                       {"call": f"{kind}.{op} = {DESC[(kind, op)]}", "process_history": [f"{l}.{o_}" for l, o_ in history][-40:], "fresh": fresh_of(step), "after_history": o})
+                known.setdefault((kind, op), []).append((collapse(relative(history, step), kind), o, res))
+            else:
+                rel, key, what, case = describe(m, step, o)
+                res = (key, what, case)
+                known.setdefault((kind, op), []).append((collapse(rel, kind), o, res))
+        todo = rest
+    return [res for _, res in sorted(out, key=lambda x: x[0])]
 
 
 def work(batch):
-    """Pool worker (never calls jsonargparse itself): runs a batch of histories in child processes, classifies the mismatches."""
-    start, checks, nontrivial, violations, notes, errors = 0, 0, [], [], [], []
+    """Pool worker (never calls jsonargparse itself): runs a batch of histories in child processes; returns the raw mismatches."""
+    start, checks, nontrivial, mismatches, notes, errors = 0, 0, [], [], [], []
     while start < len(batch):
         r = in_child(run_batch, batch, start)
         if r[0] != "done":
             errors.append((start, r[1]))
             start += 1
             continue
-        nxt, n_checks, process_history, mismatches = r[1]
+        nxt, n_checks, process_history, found = r[1]
         checks += n_checks
-        for pos, step, o in mismatches:
-            history = process_history[:pos]
+        for pos, step, o in found:
             if step[1] in NOT_ASSERTED:
                 notes.append(f"{kind_of_label(step[0])}.{step[1]}")
-                continue
-            key, what, case = classify(history, step, o)
-            violations.append((key, what, case))
+            else:
+                mismatches.append((tuple(process_history[:pos]), step, o))
         start = nxt
     for hist in batch:
         for i in range(1, len(hist)):
             nontrivial.append((hist[:i], hist[i]))
-    return {"checks": checks, "nontrivial": nontrivial, "violations": violations, "notes": notes, "errors": errors, "replays": REPLAYS[0]}
+    return {"checks": checks, "nontrivial": nontrivial, "mismatches": mismatches, "notes": notes, "errors": errors}
 
 
 def fresh_work(step):
@@ -719,13 +770,15 @@ def histories(h):
 
     steps_of = {k: [(k, o) for o in OPS[kind_of_label(k)]] for k in ("A", "B", "B2", "C", "D")}
     probes = {k: steps_of[k] if h.thorough else [(k, o) for o in PROBES[k]] for k in kinds}
-    n_susp = 11 if h.thorough else 5
+    n_susp = 8 if h.thorough else 4
     susp = {k: [(k, o) for o in SUSPICIOUS[kind_of_label(k)][:n_susp]] for k in ("A", "B", "B2", "C", "D")}
-    # 1. every history of length 1 within a kind -> every call of the kind
+    # 1. history of length 1 within a kind -> call of the kind: thorough all x all; quick all x representative calls + suspicious x all
+    all_susp = {k: [(k, o) for o in SUSPICIOUS[k]] for k in kinds}
     for k in kinds:
         for a in steps_of[k]:
             for c in steps_of[k]:
-                add((a, c))
+                if h.thorough or c in probes[k] or a in all_susp[k]:
+                    add((a, c))
     # 2. another parser built by the same function: B2 history -> B call
     for a in (steps_of["B2"] if h.thorough else [("B2", o) for o in SUSPICIOUS["B"][:8]]):
         for c in steps_of["B"]:
@@ -746,27 +799,27 @@ def histories(h):
     if h.thorough:
         # 5. length 3 of suspicious steps within a kind; length 2 mixing another parser and the parser itself
         for k in kinds:
-            for a in susp[k][:6]:
-                for b in susp[k][:6]:
-                    for c in susp[k][:6]:
+            for a in susp[k][:4]:
+                for b in susp[k][:4]:
+                    for c in susp[k][:4]:
                         for d in steps_of[k]:
                             add((a, b, c, d))
         for k1 in ["A", "B", "C", "D", "B2"]:
             for k2 in kinds:
                 if k1 != k2:
-                    for a in susp[k1][:5]:
-                        for b in susp[k2][:5]:
+                    for a in susp[k1][:4]:
+                        for b in susp[k2][:4]:
                             for c in steps_of[k2]:
                                 add((a, b, c))
     # 6. long histories (length 12): a fixed arithmetic pattern within a kind and across all parsers
     everything = steps_of["A"] + steps_of["B"] + steps_of["C"] + steps_of["D"] + steps_of["B2"]
     for pool in (steps_of["A"], steps_of["B"], steps_of["C"], steps_of["D"], everything):
         n = len(pool)
-        for i in range(12 if not h.thorough else 150):
+        for i in range(12 if not h.thorough else 60):
             add(tuple(pool[(i * 7 + j * j * 3 + j * (i % 5 + 1)) % n] for j in range(12)))
     if h.thorough:
         for pool in (steps_of["A"], steps_of["B"], steps_of["C"], steps_of["D"], everything):
-            for _ in range(800):
+            for _ in range(500):
                 add(tuple(h.rng.choice(pool) for _ in range(12)))
     return out
 
@@ -815,20 +868,21 @@ def main():
             seqs = [s for s in histories(h) if all((kind_of_label(l), o) in FRESH for l, o in s)]
             size = 50
             batches = [seqs[i:i + size] for i in range(0, len(seqs), size)]
+            not_asserted, mismatches = {}, []
             with ctx.Pool(workers) as pool:
                 results = pool.map(work, batches, chunksize=1)
-            replays, not_asserted = 0, {}
-            for res in results:
-                h.evaluations += res["checks"]
-                for sig in res["nontrivial"]:
-                    h.nontrivial(sig)
-                for key, what, case in res["violations"]:
+                for res in results:
+                    h.evaluations += res["checks"]
+                    for sig in res["nontrivial"]:
+                        h.nontrivial(sig)
+                    mismatches += res["mismatches"]
+                    for start, err in res["errors"]:
+                        h.check(False, "c09:harness:child-failed", err, None)
+                    for n in res["notes"]:
+                        not_asserted[n] = not_asserted.get(n, 0) + 1
+                for key, what, case in classify_all(mismatches, pool):
                     h.violation(key, what, case)
-                for start, err in res["errors"]:
-                    h.check(False, "c09:harness:child-failed", err, None)
-                for n in res["notes"]:
-                    not_asserted[n] = not_asserted.get(n, 0) + 1
-                replays = max(replays, res["replays"])
+            h.sample({"calls_whose_outcome_differed": len(mismatches)})
             kinds = {}
             for step, o in FRESH.items():
                 kinds[kind_of_outcome(o)] = kinds.get(kind_of_outcome(o), 0) + 1
@@ -848,10 +902,12 @@ def main():
             count = {n: sum(1 for s in seqs if len(s) == n) for n in (2, 3, 4, 12)}
             bound = (f"{len(all_steps)} operations over 4 parser kinds (A {len(OPS['A'])}, B {len(OPS['B'])}, C {len(OPS['C'])}, D {len(OPS['D'])}; B2 = second B parser); {count[2]} histories of "
                      f"length 1 + call, {count[3]} of length 2 + call, {count[4]} of length 3 + call, {count[12]} histories of length 12 (every step compared); "
-                     + ("all within-kind histories of length 1, all cross-kind and cross-instance histories of length 1, within-kind length 2 over the 11 suspicious "
-                        "steps, length 3 over 6 suspicious steps, mixed-parser length 2, fixed and seeded random histories of length 12" if h.thorough else
-                        "all within-kind histories of length 1; within-kind length 2 (5 suspicious steps per kind as history) and cross-kind length 1 "
-                        "(4 suspicious steps) -> 14 representative calls per kind; B2 -> B with 8 suspicious steps; 60 fixed long histories"))
+                     + ("all within-kind, cross-kind and cross-instance histories of length 1 -> every call; within-kind length 2 over 8 suspicious steps, length 3 "
+                        "over 4 suspicious steps, mixed-parser length 2 over 4 suspicious steps each -> every call; 300 fixed + 2500 seeded random histories "
+                        "of length 12" if h.thorough else
+                        "within-kind histories of length 1: every step -> 14 representative calls per kind and 11 suspicious steps -> every call; within-kind "
+                        "length 2 and cross-kind length 1 with 4 suspicious steps per kind as history -> representative calls; B2 -> B with 8 suspicious "
+                        "steps; 60 fixed long histories"))
     finally:
         os.environ.clear()
         os.environ.update(env0)
